@@ -47,6 +47,8 @@ def e2e_plan(tier, seed):
     out = []
     for i in range(1 if tier == "quick" else 6):
         out += [{"mode": "e2e", "e2e": "wire", "backend": b, "seed": seed * 7919 + i + j, "nevents": 60 if tier == "quick" else 200} for j, b in enumerate(("sql", "lmdb"))]
+    # uvicorn's `websockets` implementation with permessage-deflate (the one the repository's monkeypatch applies to) in every run
+    out.append({"mode": "e2e", "e2e": "wire", "backend": "sql", "seed": seed * 7919 + 77, "nevents": 30, "server_mode": "uvicorn-ws"})
     return out
 
 
